@@ -715,6 +715,46 @@ def _sum_terms(e):
     return [e]
 
 
+O_NONBLOCK_LINUX = 0o4000
+
+
+def r_wakepipe(prog, R):
+    r = R.rule("R-C07-WAKEPIPE", "both ends of the event thread's wake pipe are non-blocking: the thread drains it with a read loop that relies on a short/failed read to "
+               "stop, and whoever signals it (often holding the channel lock) must not block on a full pipe", floor=2, analysis="constant flag evaluation at the pipe's creation / mode calls")
+    f = prog.func("ares_pipeevent_init")
+    ends = {0: False, 1: False}
+    p2 = f.calls_to("pipe2")
+    for b, i, c in p2:
+        v = const_val(call_arg(c, 1))
+        if v is not None and (v & O_NONBLOCK_LINUX):
+            ends[0] = ends[1] = True
+    # fcntl(fd[k], F_SETFL, val) with val having O_NONBLOCK or'ed in
+    nb_vars = set()
+    for b, i, el in f.elements():
+        if el["k"] == "asg" and el["e"]["op"] == "|=" and is_var(strip(el["e"]["l"])) and const_val(el["e"].get("r")) is not None and (const_val(el["e"]["r"]) & O_NONBLOCK_LINUX):
+            nb_vars.add(strip(el["e"]["l"])["n"])
+    for b, i, c in f.calls_to("fcntl"):
+        if len(c.get("args", [])) >= 3 and const_val(call_arg(c, 1)) == 4:      # F_SETFL
+            fd = strip(call_arg(c, 0))
+            flag = strip(call_arg(c, 2))
+            k = const_val(fd["i"]) if fd is not None and fd.get("k") == "idx" else None
+            if k in (0, 1) and ((is_var(flag) and flag["n"] in nb_vars) or (const_val(flag) is not None and (const_val(flag) & O_NONBLOCK_LINUX))):
+                ends[k] = True
+    if not r.require(bool(p2) or bool(f.calls_to("pipe")), "ares_pipeevent_init: pipe creation not found"):
+        return
+    for k, nm in ((0, "read end (drained by the event thread)"), (1, "write end (signalled under the channel lock)")):
+        key = "wake pipe %s is non-blocking" % nm
+        if ends[k]:
+            r.ok(key, f.loc(f.ln))
+        else:
+            r.viol(key, f.name, f.loc(f.ln), "the wake pipe's %s is left in blocking mode: %s" % (nm, "the drain loop `while (read(...) == sizeof(buf))` blocks inside read() when a multiple of the buffer size is pending, and the event thread stops processing timeouts and answers" if k == 0 else "a signal on a full pipe blocks its caller while it holds the channel lock"))
+    # the drain loop stops on a short read
+    cb = prog.func("ares_pipeevent_process_cb", required=False) or prog.func("ares_pipeevent_cb", required=False)
+    if cb is not None:
+        reads = cb.calls_to("read")
+        r.info["drain_reads"] = len(reads)
+
+
 def run(prog, R, tier):
     R.assume("poll/epoll_wait/select return no later than the timeout they are given (plus scheduling delay); a byte written to the wake pipe makes them return")
     R.assume("configuration analysed: CARES_THREADS on Linux with the epoll, poll and select backends and the pipe wake handle")
@@ -723,3 +763,4 @@ def run(prog, R, tier):
     r_progress(prog, R)
     r_wake(prog, R)
     r_evloop(prog, R)
+    r_wakepipe(prog, R)
